@@ -50,9 +50,9 @@ VARIANTS = [
     fire('c07-get-next-off-by-one', ['C07'], [(TS, "        if handle.index + 1 < len(handle.block.tokens):\n            return handle.block.tokens[handle.index + 1]", "        if handle.index + 1 <= len(handle.block.tokens) - 1 and handle.index + 2 < len(handle.block.tokens) + 1 and handle.index < len(handle.block.tokens) - 2:\n            return handle.block.tokens[handle.index + 1]")], 'NAV-FORM'),
     fire('c07-iter-excludes-end', ['C07'], [(TS, "            yield from end_handle.block.tokens[:end_handle.index+1]", "            yield from end_handle.block.tokens[:end_handle.index]")], 'NAV-FORM'),
     fire('c07-insert-after-same-slot', ['C07'], [(TS, "            start = (start_handle.block.index, start_handle.index + 1)\n        self._splice(tokens, start, start)", "            start = (start_handle.block.index, start_handle.index)\n        self._splice(tokens, start, start)")], 'NAV-FORM'),
-    fire('c08-update-early-return-le', ['C08'], [(TS, "        if handle.index < handle.block.last_newline_index:\n            return", "        if handle.index <= handle.block.last_newline_index:\n            return")], 'POS-FORM'),
-    fire('c08-fastpath-lines', ['C08'], [(TS, "                    lines_diff += token.size.line\n", "                    lines_diff += token.size.line and 1\n")], 'POS-FORM'),
-    fire('c08-position-column-add', ['C08'], [(TS, "        if other.line:\n            self.column = other.column\n        else:\n            self.column += other.column", "        self.column += other.column")], 'POS-FORM'),
+    fire('c08-update-early-return-le', ['C08'], [(TS, "        if handle.index < handle.block.last_newline_index:\n            return", "        if handle.index <= handle.block.last_newline_index:\n            return")], 'POS-SEM'),
+    fire('c08-fastpath-lines', ['C08'], [(TS, "                    lines_diff += token.size.line\n", "                    lines_diff += token.size.line and 1\n")], 'POS-SEM'),
+    fire('c08-position-column-add', ['C08'], [(TS, "        if other.line:\n            self.column = other.column\n        else:\n            self.column += other.column", "        self.column += other.column")], 'POS-SEM'),
     silent('c08-twin-update-commuted', ['C08'], [(TS, "        handle.block.size.line += size.line - token.size.line", "        handle.block.size.line += -token.size.line + size.line")]),
     silent('c07-twin-local-rename', ['C07', 'C08'], [(TS, "        new_blocks = _build_blocks(self, block.index, block.tokens)\n        self._blocks[block.index:block.index+1] = new_blocks\n        self._update_block_indexes(new_blocks[-1].index + 1)",
                                                       "        fresh = _build_blocks(self, block.index, block.tokens)\n        self._blocks[block.index:block.index+1] = fresh\n        self._update_block_indexes(fresh[-1].index + 1)")]),
@@ -233,3 +233,16 @@ ROUND2 = [
     fire('r2-bc-no-semicolon-space', ['C15', 'C12'], [(BC, "f'{indent}; {line}' if line", "f'{indent};{line}' if line")], 'BC-LINE'),
 ]
 VARIANTS += ROUND2
+
+UPD_OLD2 = "        handle = _check_store_handle(token)\n        handle.block.size.line += size.line - token.size.line\n        if handle.index < handle.block.last_newline_index:\n            return\n"
+POSSEM = [
+    silent('ps-twin-update-block-alias', ['C08', 'C02'], [(TS, UPD_OLD2, "        handle = _check_store_handle(token)\n        block = handle.block\n        block.size.line += size.line - token.size.line\n        if block.last_newline_index > handle.index:\n            return\n")]),
+    silent('ps-twin-rebuild-direct', ['C08', 'C07'], [(TS, "        size = Position()\n        last_newline_index = -1\n        for i, token in enumerate(self.tokens):\n            size += token.size\n            if token.size.line:\n                last_newline_index = i\n            token.store_handle = _StoreHandle(block=self, index=i)\n        self.size = size\n        self.last_newline_index = last_newline_index",
+                                                        "        self.size = Position()\n        self.last_newline_index = -1\n        for i in range(len(self.tokens)):\n            token = self.tokens[i]\n            token.store_handle = _StoreHandle(self, i)\n            self.size += token.size\n            if token.size.line > 0:\n                self.last_newline_index = i")]),
+    silent('ps-twin-iadd-restructured', ['C08'], [(TS, "        self.line += other.line\n        if other.line:\n            self.column = other.column\n        else:\n            self.column += other.column\n        return self", "        if other.line:\n            self.line += other.line\n            self.column = other.column\n            return self\n        self.column += other.column\n        return self")]),
+    fire('ps-update-same-lines-fastpath', ['C08'], [(TS, UPD_OLD2, "        handle = _check_store_handle(token)\n        if size.line == token.size.line:\n            if handle.index >= handle.block.last_newline_index:\n                handle.block.size.column += len(raw_text) - len(token.raw_text)\n            return\n" + UPD_OLD2.split("\n", 1)[1])], 'POS-SEM'),
+    fire('ps-rebuild-forgets-lni-reset', ['C08'], [(TS, "        self.size = size\n        self.last_newline_index = last_newline_index", "        self.size = size\n        if last_newline_index >= 0:\n            self.last_newline_index = last_newline_index")], 'POS-SEM'),
+    fire('ps-get-position-inclusive', ['C08'], [(TS, "        for i in range(handle.index):\n            pos += handle.block.tokens[i].size\n        return pos", "        for i in range(handle.index + 1):\n            pos += handle.block.tokens[i].size\n        return pos")], 'POS-SEM'),
+    fire('ps-update-remove-newline-no-scan-stop', ['C08'], [(TS, "                if handle.block.tokens[i].size.line:\n                    handle.block.last_newline_index = i\n                    break\n", "                if handle.block.tokens[i].size.line:\n                    handle.block.last_newline_index = i\n")], 'POS-SEM'),
+]
+VARIANTS += POSSEM
